@@ -120,6 +120,22 @@ def tri_part(A, upper, unit):
     return [[(1 if unit else A[i][j]) if i == j else (A[i][j] if (j > i) == upper else 0) for j in range(n)] for i in range(n)]
 
 
+def sparse_vec(r, n):
+    k = r.below(4)
+    v = [0] * n
+    if n == 0 or k == 0:
+        return v
+    if k == 1:
+        v[r.below(n)] = r.choice([-4, -1, 1, 2, 8])
+    elif k == 2:
+        z = r.below(n)
+        v = [0] * z + [r.range(-5, 5) for _ in range(n - z)]
+    else:
+        z = r.below(n)
+        v = [r.range(-5, 5) for _ in range(n - z)] + [0] * z
+    return v
+
+
 def gen_trsv(r, n, tol=False):
     upper, unit, left = r.chance(1, 2), r.chance(1, 3), r.chance(1, 2)
     oa = r.choice("rc")
@@ -127,10 +143,13 @@ def gen_trsv(r, n, tol=False):
     A = gen_tri_matrix(r, n, upper, unit, singular)
     T = tri_part(A, upper, unit)
     x0 = [r.range(-4, 4) for _ in range(n)]
-    if r.chance(3, 4):
+    mode = r.below(8)
+    if mode < 5:
         b = mv(T if left else tr(T), x0)
-    else:
+    elif mode == 5:
         b = [r.range(-5, 5) for _ in range(n)]
+    else:
+        b = sparse_vec(r, n)      # zero-skipping branches of the kernels: leading / trailing zeros, unit vectors
     line = f"trsv {'u' if upper else 'l'} {'u' if unit else 'n'} {'L' if left else 'R'} {oa} {n} {emit(A)} {emitv(b)}"
     return dict(op=line, kind="exact", n=n, name="trsv", cfg=f"{'u' if upper else 'l'}{'u' if unit else 'n'}{'L' if left else 'R'}{oa}",
                 singular=singular and not unit)
@@ -150,6 +169,9 @@ def gen_trsm(r, n, m):
         B = mm(X0, T)
     if r.chance(1, 5):
         B = [[r.range(-5, 5) for _ in row] for row in B]
+    elif r.chance(1, 5):
+        vs = [sparse_vec(r, n) for _ in range(m)]
+        B = tr(vs) if left else vs
     line = f"trsm {'u' if upper else 'l'} {'u' if unit else 'n'} {'L' if left else 'R'} {oa} {ob} {n} {m} {emit(A)} {emit(B)}"
     return dict(op=line, kind="exact", n=n, name="trsm", cfg=f"{'u' if upper else 'l'}{'u' if unit else 'n'}{'L' if left else 'R'}{oa}{ob}",
                 singular=singular and not unit and m > 0)
@@ -311,20 +333,80 @@ def rhs_for(r, A, sA, n, m, left, vec, exact_from=None):
     return emit(B, sA)
 
 
-def gen_solve(r, n, tag=None, tol=False):
+# ---- well-conditioned exact systems (for the lazily consumed forms r/j, which go through rows of the
+# explicit inverse and are therefore only forward stable: residual <= eps * cond)
+def wc_tri_matrix(r, n, upper, unit):
+    """triangular system with a dominant power-of-two diagonal (8..32) and at most two entries +-1 per row;
+    for unit tags the stored diagonal is garbage and the off-diagonal entries are dyadic (+-1/4)"""
+    A = [[r.range(-9, 9) for _ in range(n)] for _ in range(n)]
+    for i in range(n):
+        A[i][i] = r.range(-3, 3) if unit else r.choice([1, -1]) * (1 << r.range(3, 5))
+        cand = [j for j in range(n) if j != i and (j > i) == upper]
+        for j in cand:
+            A[i][j] = 0
+        for _ in range(min(2, len(cand))):
+            A[i][r.choice(cand)] = r.choice([1, -1])
+    return A, 0
+
+
+def wc_chol_factor(r, n):
+    L = [[0] * n for _ in range(n)]
+    for i in range(n):
+        L[i][i] = 1 << r.range(2, 4)
+        for _ in range(min(2, i)):
+            L[i][r.below(i)] = r.choice([1, -1])
+    return L
+
+
+def wc_lu_matrix(r, n):
+    """A = Pi^T L U, scale 4: L unit lower with at most two entries +-1/4 per row, U upper with diagonal
+    +-16..64 and at most two entries +-1 per row"""
+    L4 = [[4 if i == j else 0 for j in range(n)] for i in range(n)]
+    U = [[0] * n for _ in range(n)]
+    for i in range(n):
+        for _ in range(min(2, i)):
+            L4[i][r.below(i)] = r.choice([1, -1])
+        U[i][i] = r.choice([1, -1]) * (1 << r.range(4, 6))
+        for _ in range(min(2, n - 1 - i)):
+            U[i][r.range(i + 1, n - 1)] = r.choice([1, -1])
+    return perm_rows(mm(L4, U), rand_perm(r, n)), 2
+
+
+def float_tri(r, n, upper, unit, bits=8):
+    """well-conditioned dyadic triangular system (row sums of the off-diagonal part below 1/2 of the diagonal)"""
+    one = 1 << bits
+    A = [[r.range(-9 * one, 9 * one) for _ in range(n)] for _ in range(n)]
+    for i in range(n):
+        for j in range(n):
+            if i == j:
+                A[i][j] = r.range(-3 * one, 3 * one) if unit else r.choice([1, -1]) * (one + r.below(one))
+            elif (j > i) == upper:
+                A[i][j] = r.range(-one, one) // max(2, n)
+    return A, bits
+
+
+FORMS_ANY = "siabe"          # every right-hand side kind
+FORMS_MAT = "rjpqmn"         # lazily consumed matrix solves: matrix right-hand sides only
+TAGS = ["spd", "semi", "lu", "tl", "tu", "tul", "tuu"]
+
+
+def gen_solve(r, n, tag=None, tol=False, form=None, left=None, K=None):
     tag = tag or r.choice(["spd", "spd", "semi", "semi", "lu", "lu", "tl", "tu", "tul", "tuu"])
-    left = r.chance(1, 2)
+    left = r.chance(1, 2) if left is None else left
     oa = r.choice("rc")
-    K = r.choice(["v", "v", "r", "c"])
-    form = r.choice("si")
+    if K is None:
+        K = r.choice("rc") if (form is not None and form in FORMS_MAT) else r.choice(["v", "v", "r", "c"])
+    if form is None:
+        form = r.choice("ssii" + FORMS_ANY) if K == "v" else r.choice("ssii" + FORMS_ANY + FORMS_MAT + FORMS_MAT)
     m = 1 if K == "v" else r.choice([1, 2, 3, 5, 17])
+    wc = form in "rj"
     s = 0
     extra = ""
     if tag == "spd":
         if tol:
             A, s = float_spd(r, n)
         else:
-            L = int_chol_factor(r, n); A = mm(L, tr(L))
+            L = wc_chol_factor(r, n) if wc else int_chol_factor(r, n); A = mm(L, tr(L))
     elif tag == "semi":
         if tol:
             rank = r.choice([n, r.range(1, n)]); A, s = float_psd(r, n, rank)
@@ -332,11 +414,20 @@ def gen_solve(r, n, tag=None, tol=False):
             rank = r.choice([n, n, r.range(0, n), max(0, n - 1)]); A = pstrf_matrix(r, n, rank)
         extra = f"-def{min(n - rank, 3)}"
     elif tag == "lu":
-        A, s = float_general(r, n) if tol else gen_lu_matrix(r, n)
+        A, s = float_general(r, n) if tol else (wc_lu_matrix(r, n) if wc else gen_lu_matrix(r, n))
     else:
         upper, unit = tag in ("tu", "tuu"), tag in ("tul", "tuu")
-        A = gen_tri_matrix(r, n, upper, unit)
+        if tol:
+            A, s = float_tri(r, n, upper, unit)
+        elif wc:
+            A, s = wc_tri_matrix(r, n, upper, unit)
+            if unit:
+                s = 2      # the implicit diagonal is 1: read all entries as quarters (off-diagonal +-1/4)
+        else:
+            A = gen_tri_matrix(r, n, upper, unit)
         T = tri_part(A, upper, unit)
+        if s and unit:
+            T = [[(1 << s) if i == j else T[i][j] for j in range(n)] for i in range(n)]
     Aeff = T if tag.startswith("t") else A
     if tol or (tag == "semi" and rank < n) or r.chance(1, 6):
         cnt = n * m
@@ -344,30 +435,162 @@ def gen_solve(r, n, tag=None, tol=False):
     else:
         B = rhs_for(r, Aeff, s, n, m, left, K == "v")
     line = f"solve {tag} {'L' if left else 'R'} {oa} {K} {form} {n} {m} {emit(A, s)} {B}"
-    return dict(op=line, kind="tol" if tol else "exact", n=n, name="solve",
+    return dict(op=line, kind="tol" if tol else "exact", n=n, name="solve", form=form,
                 cfg=f"{tag}{extra}:{'L' if left else 'R'}{oa}{K}{form}" + ("-float" if tol else ""))
 
 
+def gen_decomp(r, n, tol=False):
+    """one decomposition object serving several solve requests (all four side / rhs-kind combinations in random order)"""
+    cls = r.choice(["chol", "chold", "lu", "semi", "semi"] + (["eig"] if tol else []))
+    oa = r.choice("rc")
+    s = 0
+    if cls in ("chol", "chold", "eig"):
+        if tol:
+            A, s = float_spd(r, n)
+        else:
+            L = int_chol_factor(r, n); A = mm(L, tr(L))
+            if r.chance(1, 2):
+                A = sym_garbage(r, A, False)        # only the lower triangle may be read
+    elif cls == "lu":
+        A, s = float_general(r, n) if tol else gen_lu_matrix(r, n)
+    else:
+        if tol:
+            rank = r.choice([n, r.range(1, n)]); A, s = float_psd(r, n, rank)
+        else:
+            rank = r.choice([n, r.range(0, n), max(0, n - 1)]); A = pstrf_matrix(r, n, rank)
+    q = r.range(2, 5)
+    Asym = [[A[i][j] if j <= i else A[j][i] for j in range(n)] for i in range(n)] if cls in ("chol", "chold", "eig") else A
+    reqs = []
+    for _ in range(q):
+        left = r.chance(1, 2); K = r.choice("vrc"); m = 1 if K == "v" else r.choice([1, 2, 3, 5])
+        if tol or cls == "semi" or r.chance(1, 5):
+            B = " ".join(str(r.range(-5, 5)) for _ in range(n * m))
+        else:
+            B = rhs_for(r, Asym, s, n, m, left, K == "v")
+        reqs.append(f"{'L' if left else 'R'} {K} {m} {B}")
+    line = f"decomp {cls} {oa} {n} {q} {emit(A, s)} {' '.join(reqs)}"
+    return dict(op=line, kind="tol" if tol else "exact", n=n, name="decomp", cfg=f"{cls}:{oa}:q{q}" + ("-float" if tol else ""))
+
+
+# ---- rank-one updates of a Cholesky factor
+V_CLASSES = ["dense", "lead0", "unit", "trail0", "inner0", "zero", "colL", "colL-singular", "indef"]
+ALPHAS_EXACT = ["1", "4", "1/4", "16", "1/16", "9/4", "9"]
+ALPHAS_TOL = ["1", "4", "1/4", "2", "3/2", "7/10", "13/10", "9/10"]
+
+
+def gen_cholseq(r, n, tol=False, vclass=None, alpha=None, k=None):
+    """cholesky_decomposition(A), k updates (alpha_t, beta_t, v_t) on the same object, then a solve.
+    Vector classes: dense; leading / trailing / interior zeros; unit vectors; the zero vector; a scaled
+    column of the factor (the update then stays exact: new factor = old with one column rescaled);
+    the same with alpha + beta t^2 = 0 (exactly singular target: must throw); a large downdate (must throw)."""
+    oa = r.choice("rc")
+    k = k or r.choice([1, 1, 2, 3, 5])
+    one = 256
+    if tol:
+        A, s = float_spd(r, n); L = None
+    else:
+        L = int_chol_factor(r, n, lim=2); A = mm(L, tr(L)); s = 0
+        if r.chance(1, 2):
+            A = sym_garbage(r, A, False)
+    ups, classes = [], []
+    for t in range(k):
+        vc = vclass if (vclass and t == 0) else r.choice(V_CLASSES[:7] * 3 + V_CLASSES[7:])
+        if tol and vc.startswith("colL"):
+            vc = "lead0"
+        if vc in ("colL-singular", "indef") and t + 1 < k:
+            vc = "lead0"           # throwing updates only as the last one
+        al = alpha if (alpha and t == 0) else r.choice(ALPHAS_TOL if tol else ALPHAS_EXACT)
+        be = r.choice(["1", "1/2", "3", "0", "-1/8", "-1/2", "5", "3/4", "2"])
+        ent = (lambda: fmt(r.range(-one, one) or 1, 8)) if tol else (lambda: str(r.choice([-3, -2, -1, 1, 2, 3])))
+        v = ["0"] * n
+        if vc == "dense":
+            v = [ent() for _ in range(n)]
+        elif vc == "lead0":
+            z = r.range(1, n - 1) if n > 1 else 0
+            v = ["0"] * z + [ent() for _ in range(n - z)]
+        elif vc == "unit":
+            i = r.below(n) if r.chance(1, 4) else r.range(min(1, n - 1), n - 1)
+            v[i] = ent()
+        elif vc == "trail0":
+            z = r.range(1, n - 1) if n > 1 else 0
+            v = [ent() for _ in range(n - z)] + ["0"] * z
+        elif vc == "inner0":
+            v = [ent() if r.chance(1, 2) else "0" for _ in range(n)]
+        elif vc == "zero":
+            pass
+        elif vc in ("colL", "colL-singular"):
+            # v = t * (column c of the CURRENT factor) is only known for the first update: use the initial factor and
+            # alpha + beta t^2 a square (resp. zero)
+            c = r.below(n)
+            if vc == "colL":
+                al, be, tt = r.choice([("1", "3", 1), ("4", "5", 1), ("1/4", "2", 1), ("1", "-3/4", 1), ("1", "2", 2), ("4", "3", 2), ("16", "9", 1)])
+            else:
+                al, be, tt = r.choice([("1", "-1", 1), ("4", "-1", 2), ("1/4", "-1/4", 1), ("1", "-1/4", 2)])
+            if t > 0:      # later updates: the current factor is not known here; fall back to leading zeros
+                v = ["0"] * (n - 1) + [ent()]
+                vc = "lead0"
+            else:
+                v = [str(tt * L[i][c]) for i in range(n)]
+        elif vc == "indef":
+            v = [ent() for _ in range(n)]
+            be = "-4096" if not tol else "-64"
+        ups.append(f"{al} {be} {' '.join(v)}")
+        classes.append(vc)
+    S = r.choice("LRN")
+    b = "" if S == "N" else " " + " ".join(str(r.range(-5, 5)) for _ in range(n))
+    line = f"cholseq {oa} {n} {k} {emit(A, s)} {' '.join(ups)} {S}{b}"
+    a1 = ups[0].split()[0]
+    return dict(op=line, kind="tol" if tol else "exact", n=n, name="cholseq",
+                cfg=f"{oa}:k{k}:{classes[0]}:a{'1' if a1 == '1' else 'x'}" + ("-float" if tol else ""), vclasses=classes)
+
+
 def gen_oracle_only(r, n):
-    """conjugate gradient, rank-one Cholesky update, symmetric eigendecomposition: residual oracle only"""
-    k = r.below(3)
+    """conjugate gradient and symmetric eigendecomposition: residual oracle only"""
+    k = r.below(2)
     oa = r.choice("rc")
     if k == 0:
         A, s = float_spd(r, n)
         left = r.chance(1, 2); K = r.choice(["v", "r", "c"]); m = 1 if K == "v" else r.choice([1, 3])
+        form = r.choice(FORMS_ANY if K == "v" else FORMS_ANY + FORMS_MAT)
         B = " ".join(str(r.range(-5, 5)) for _ in range(n * m))
-        return dict(op=f"solve cg {'L' if left else 'R'} {oa} {K} {r.choice('si')} {n} {m} {emit(A, s)} {B}",
-                    kind="tol", n=n, name="cg", cfg=f"{'L' if left else 'R'}{oa}{K}")
-    if k == 1:
-        A, s = float_spd(r, n)
-        alpha = r.choice(["1", "4", "1/4", "2", "3/2"])
-        beta = r.choice(["1", "1/2", "3", "0", "-1/8", "-1/2"])
-        v = " ".join(fmt(r.range(-256, 256), 8) for _ in range(n))
-        return dict(op=f"cholup {oa} {n} {alpha} {beta} {emit(A, s)} {v}", kind="tol", n=n, name="cholup", cfg=f"{oa}:a{alpha}:b{beta}")
+        return dict(op=f"solve cg {'L' if left else 'R'} {oa} {K} {form} {n} {m} {emit(A, s)} {B}",
+                    kind="tol", n=n, name="cg", cfg=f"{'L' if left else 'R'}{oa}{K}{form}")
+    return gen_syev(r, n)
+
+
+def gen_syev(r, n, cls=None):
+    """symmetric eigendecomposition; classes: dense; repeated eigenvalues (block-diagonal copies); diagonal;
+    zero matrix; identity multiple; rank one; tridiagonal"""
+    oa = r.choice("rc")
     one = 256
-    M = [[r.range(-one, one) for _ in range(n)] for _ in range(n)]
-    A = [[M[i][j] + M[j][i] for j in range(n)] for i in range(n)]
-    return dict(op=f"syev {oa} {n} {emit(A, 8)}", kind="tol", n=n, name="syev", cfg=oa)
+    cls = cls or r.choice(["dense", "dense", "repeated", "diagonal", "zero", "identity", "rank1", "tridiagonal"])
+    A = [[0] * n for _ in range(n)]
+    if cls == "dense":
+        M = [[r.range(-one, one) for _ in range(n)] for _ in range(n)]
+        A = [[M[i][j] + M[j][i] for j in range(n)] for i in range(n)]
+    elif cls == "repeated":
+        h = max(1, n // 2)
+        M = [[r.range(-one, one) for _ in range(h)] for _ in range(h)]
+        for i in range(n):
+            for j in range(n):
+                if i // h == j // h and i // h < 2:
+                    A[i][j] = M[i % h][j % h] + M[j % h][i % h]
+    elif cls == "diagonal":
+        for i in range(n):
+            A[i][i] = r.choice([0, one, -one, 2 * one, r.range(-one, one)])
+    elif cls == "identity":
+        c = r.choice([one, -3 * one, one // 2])
+        for i in range(n):
+            A[i][i] = c
+    elif cls == "rank1":
+        u = [r.range(-16, 16) for _ in range(n)]
+        A = [[u[i] * u[j] for j in range(n)] for i in range(n)]
+    elif cls == "tridiagonal":
+        for i in range(n):
+            A[i][i] = r.range(-one, one)
+            if i + 1 < n:
+                A[i][i + 1] = A[i + 1][i] = r.range(-one, one)
+    return dict(op=f"syev {oa} {n} {emit(A, 8)}", kind="tol", n=n, name="syev", cfg=f"{oa}:{cls}")
 
 
 def load_corpus():
@@ -426,10 +649,43 @@ def gen_cases(ctx):
             cases.append(gen_pstrf(r, n, rank=rank))
     for n in sizes(ctx, r, 25 if q else 0) * (1 if q else 3):
         cases.append(gen_solve(r, n))
+    # every form of writing / consuming the solve expression x every system tag x both sides, on every run
+    for form in FORMS_ANY + FORMS_MAT:
+        for tag in TAGS:
+            for left in (True, False):
+                n = r.choice([2, 3, 4, 5, 6, 7, 9, 12])
+                cases.append(gen_solve(r, n, tag=tag, form=form, left=left))
+                if not q:
+                    cases.append(gen_solve(r, r.choice(BOUNDARY[5:]), tag=tag, form=form, left=left))
+                    cases.append(gen_solve(r, r.range(2, 40), tag=tag, form=form, left=left, tol=True))
+        if q:
+            for tag in TAGS:
+                cases.append(gen_solve(r, r.range(2, 24), tag=tag, form=form, tol=True))
     for n in sizes(ctx, r, 6 if q else 0):
         if n <= 40:
-            cases.append(gen_solve(r, n, tag=r.choice(["spd", "lu", "semi"]), tol=True))
+            cases.append(gen_solve(r, n, tag=r.choice(TAGS), tol=True))
             cases.append(gen_oracle_only(r, n))
+    # symmetric eigendecomposition: every matrix class
+    for cls in ["dense", "repeated", "diagonal", "zero", "identity", "rank1", "tridiagonal"]:
+        for n in ([1, 2, r.range(3, 12)] if q else [1, 2, 3, 5, 8, 13, 21, 34]):
+            cases.append(gen_syev(r, n, cls))
+    # decomposition objects serving several requests
+    for n in sizes(ctx, r, 4 if q else 0):
+        cases.append(gen_decomp(r, n))
+        if n <= 40:
+            cases.append(gen_decomp(r, n, tol=True))
+    # rank-one updates: every vector class x (alpha = 1 / alpha != 1), exact and float, on every run; then sequences
+    for vc in V_CLASSES:
+        for alpha in (["1", "4", "1/4"] if q else ALPHAS_EXACT):
+            for n in ([r.choice([2, 3, 4, 5]), r.range(6, 12)] if q else [2, 3, 5, 8, 17, 33]):
+                cases.append(gen_cholseq(r, n, vclass=vc, alpha=alpha, k=1))
+        for alpha in (["1", "7/10"] if q else ALPHAS_TOL):
+            for n in ([r.choice([2, 3, 4, 5]), r.range(6, 24)] if q else [2, 3, 5, 8, 17, 33]):
+                cases.append(gen_cholseq(r, n, tol=True, vclass=vc, alpha=alpha, k=1))
+    for n in sizes(ctx, r, 5 if q else 0):
+        if n <= 40:
+            cases.append(gen_cholseq(r, n))
+            cases.append(gen_cholseq(r, n, tol=True))
     return cases
 
 
